@@ -381,6 +381,35 @@ let exec (toks : string list) =
         let (w1, r) = cfg_getsec !w cfg path in
         w := w1;
         std "getsec" ("target=" ^ (match r with None -> "null" | Some [] -> "/" | Some steps -> fmt_target steps None)))
+  | ("getv" | "getv0" as cmd) :: c :: kind :: p :: rest when (cmd = "getv" && List.length rest = 1) || (cmd = "getv0" && rest = []) ->
+    with_ctx cmd c (fun _ cfg _ ->
+      let name = (match ostr_of_hex p with Some s -> s | None -> raise Bad) in
+      let k = (match kind with "int" -> KInt | "flt" -> KFloat | "bool" -> KBool | "str" -> KStr | "ptr" -> KPtr | "sec" -> KSec | _ -> raise Bad) in
+      if cmd = "getv0" && kind = "sec" then begin
+        (* the short form for sections is cfg_getsec *)
+        let (w1, r) = cfg_getsec !w cfg name in
+        w := w1;
+        std cmd ("v=" ^ (match r with None -> "null" | Some [] -> "/" | Some steps -> fmt_target steps None))
+      end else begin
+        let i = (match rest with [i] -> int_of_string i land 0xffffffff | _ -> 0) in
+        let (w1, r) = cfg_getn !w cfg k name (n_of_int i) in
+        w := w1;
+        std cmd ("v=" ^ (match r with
+            | GInt z -> string_of_z z
+            | GFloat x -> Printf.sprintf "%016Lx" (int64_of_n x)
+            | GBool b -> if b then "1" else "0"
+            | GStr s -> hex_of_ostr s
+            | GPtr id -> "p" ^ string_of_int (int_of_n id)
+            | GSec None -> "null"
+            | GSec (Some steps) -> fmt_target steps None))
+      end)
+  | ["gettsec"; c; p; t] -> with_ctx "gettsec" c (fun _ cfg _ ->
+      match ostr_of_hex p, ostr_of_hex t with
+      | Some name, Some title ->
+        let (w1, r) = cfg_gettsec !w cfg name title in
+        w := w1;
+        std "gettsec" ("target=" ^ (match r with None -> "null" | Some steps -> fmt_target steps None))
+      | _, _ -> raise Bad)
   | ["size"; c; p] -> with_ctx "size" c (fun _ cfg _ ->
       let n = (match ostr_of_hex p with
           | None | Some [] -> 0
